@@ -136,11 +136,11 @@ Definition wr (b : list Z) (off : Z) (bs : list Z) : option (list Z) :=
 Definition flat_group_size (d : dim) (n bl : Z) : option Z :=
   obind (cmul SIZE_T (d_bl_t d) n bl) (fun p => cadd SIZE_T SIZE_T (d_size d) p).
 
-Module Legacy.
+Module LegacyMsg.
   Definition flat_group_size (d : dim) (n bl : Z) : option Z :=
     obind (cmul (d_n_t d) (d_bl_t d) n bl) (fun p =>
     cadd SIZE_T (uac (d_n_t d) (d_bl_t d)) (d_size d) p).
-End Legacy.
+End LegacyMsg.
 
 (* end position of <data> members laid out one after another from [pos] *)
 Fixpoint datas_end (be : bool) (b : list Z) (ds : list ity) (pos : Z) : option Z :=
